@@ -1,6 +1,7 @@
 import GarbleVerif.Proofs.BitOps
 import GarbleVerif.Proofs.ArithSMul
 import GarbleVerif.Proofs.ArithShift
+import GarbleVerif.Proofs.ArithConstMul
 /-! `*`, `/`, `%`, `<<`, `>>` of the compiler model on encodings of values (all widths): the exact result, and
 the panic conditions exactly when the source operation fails. -/
 namespace GV
@@ -450,6 +451,73 @@ theorem binop_shr (k : IntTy) (a s : Int) (ha : k.inRange a = true) (hs : IntTy.
       rw [← hqe, hv, hql] at hrng
       refine ⟨?_, eq_enc_of_toInt k _ _ hlen hv, by simp [hno]⟩
       rw [inRange_iff]; simp only [IntTy.lo, IntTy.hi, hsg, if_true]; omega
+
+/-! ### multiplication by a small positive literal (repeated addition) -/
+
+theorem constMul_enc (k : IntTy) (v : Int) (n : Nat) (hv : k.inRange v = true) (hn : 1 ≤ n) :
+    let r := constMul (enc k v) k.signed n false
+    (k.inRange ((n : Int) * v) = true → r = (enc k ((n : Int) * v), false)) ∧
+    (k.inRange ((n : Int) * v) = false → r.2 = true) := by
+  have hrv := (inRange_iff k v).mp hv
+  have hp := pow_bits k
+  have hpos : (0 : Int) < (2 : Int) ^ (k.bits - 1) := Int.pow_pos (by decide)
+  cases hs : k.signed
+  · -- unsigned
+    obtain ⟨hl, hval, hov⟩ := constMul_unsigned (enc k v) n hn
+    rw [enc_length] at hl hov
+    have hx := toNat_enc_unsigned k v hs hv
+    simp only [IntTy.lo, IntTy.hi, hs, Bool.false_eq_true, if_false] at hrv
+    have hP : ((2 ^ k.bits : Nat) : Int) = (2 : Int) ^ k.bits := by push_cast; rfl
+    have hprod : ((n * toNat (enc k v) : Nat) : Int) = (n : Int) * v := by push_cast; rw [hx]
+    constructor
+    · intro hr
+      have hr' := (inRange_iff k _).mp hr
+      simp only [IntTy.lo, IntTy.hi, hs, Bool.false_eq_true, if_false] at hr'
+      have hno : (constMul (enc k v) false n false).2 = false := by
+        cases hc : (constMul (enc k v) false n false).2
+        · rfl
+        · have := hov.mp hc
+          have : ((2 ^ k.bits : Nat) : Int) ≤ ((n * toNat (enc k v) : Nat) : Int) := by exact_mod_cast this
+          rw [hP, hprod] at this
+          omega
+      have hv2 : (toNat (constMul (enc k v) false n false).1 : Int) = (n : Int) * v := by rw [hval hno]; exact hprod
+      apply Prod.ext
+      · exact eq_enc_of_toNat k _ _ hl hv2
+      · exact hno
+    · intro hr
+      have hnr : ¬ (k.lo ≤ (n : Int) * v ∧ (n : Int) * v ≤ k.hi) := by
+        intro h'; rw [(inRange_iff k _).mpr h'] at hr; simp at hr
+      simp only [IntTy.lo, IntTy.hi, hs, Bool.false_eq_true, if_false] at hnr
+      have hnn : 0 ≤ (n : Int) * v := Int.mul_nonneg (by omega) hrv.1
+      apply hov.mpr
+      have : (2 : Int) ^ k.bits ≤ (n : Int) * v := by omega
+      rw [← hP, ← hprod] at this
+      exact_mod_cast this
+  · -- signed
+    obtain ⟨ya, yr, hya, hyl⟩ := exists_cons_of_length (x := enc k v) (n := k.bits - 1)
+      (by rw [enc_length]; have := bits_pos k; omega)
+    have hy := toInt_enc_signed k v hs hv
+    rw [hya] at hy ⊢
+    obtain ⟨hl, hval, hov⟩ := constMul_signed_pos ya yr n hn
+    rw [hy] at hval hov
+    rw [hyl] at hov hl
+    have hb1 := bits_pos k
+    constructor
+    · intro hr
+      have hr' := (inRange_iff k _).mp hr
+      simp only [IntTy.lo, IntTy.hi, hs, if_true] at hr'
+      have hno : (constMul (ya :: yr) true n false).2 = false := by
+        cases hc : (constMul (ya :: yr) true n false).2
+        · rfl
+        · have := hov.mp hc; omega
+      apply Prod.ext
+      · exact eq_enc_of_toInt k _ _ (by rw [hl]; omega) (hval hno)
+      · exact hno
+    · intro hr
+      have hnr : ¬ (k.lo ≤ (n : Int) * v ∧ (n : Int) * v ≤ k.hi) := by
+        intro h'; rw [(inRange_iff k _).mpr h'] at hr; simp at hr
+      simp only [IntTy.lo, IntTy.hi, hs, if_true] at hnr
+      apply hov.mpr; omega
 
 end Bit
 end GV
